@@ -11,9 +11,9 @@ verus! {
 //@enum SigHash @ src/transaction/sighash.rs clone copy partialeq eq
 //@enumtable SigHash @ src/transaction/sighash.rs from_u8
 //@include shims/asref.rs
+//@include shims/codecs.rs
 //@include shims/k256.rs
-pub struct GenericArray;
-impl GenericArray { #[verifier::external_body] pub fn from_slice<'a>(s: &'a [u8]) -> (r: &'a FieldBytes) requires s@.len() == 32 ensures r@ == s@ { unimplemented!() } }
+//@include shims/ga32.rs
 #[verifier::external_body] pub fn get_hash_digest(hash_algo: SigningHash, preimage: &[u8]) -> (r: Sha256rV)
     ensures hash_algo is Sha256 ==> r.hd_absorbed() == preimage@ && !r.hd_reversed(), hash_algo is Sha256d ==> r.hd_absorbed() == spec_sha256(preimage@) && !r.hd_reversed() { unimplemented!() }
 //@struct PublicKey @ src/keypair/public_key.rs clone
@@ -36,6 +36,7 @@ impl RecoveryInfo {
 }
 impl Signature {
 //@fn Signature::from_der_impl
+//@fn Signature::from_hex_der_impl
 //@fn Signature::to_der_bytes
 //@fn Signature::to_compact_bytes
 //@fn Signature::from_compact_impl
